@@ -506,6 +506,8 @@ func lgRunScripts(ctx *Ctx, res *Result, rng *Rng, n int, prop string, c08 bool)
 		res.Broken = err.Error()
 		return
 	}
+	shrunk := map[string]int{}
+	mayShrink := func(key string) bool { shrunk[key]++; return shrunk[key] <= 2 }
 	for i, s := range scripts {
 		m, err := lgParseModel(ans[i])
 		if err != nil {
@@ -542,7 +544,7 @@ func lgRunScripts(ctx *Ctx, res *Result, rng *Rng, n int, prop string, c08 bool)
 		if strings.Contains(m.Out, "<U+") || strings.Contains(m.Out, "<0x") {
 			res.Count("logger.with-escaped-byte", 1)
 		}
-		if d := lgCompare(r, m); d != "" {
+		if d := lgCompare(r, m); d != "" && mayShrink("corr") {
 			small := lgShrink(s, func(t lgScript) bool { x, err := lgDisagree(ctx, t); return err == nil && x != "" })
 			d2, _ := lgDisagree(ctx, small)
 			if d2 == "" {
@@ -563,7 +565,7 @@ func lgRunScripts(ctx *Ctx, res *Result, rng *Rng, n int, prop string, c08 bool)
 		if !lgHasNewlineMsg(s) {
 			alt := lgAltOpts(rng, s.Opts)
 			res.Count("logger.presentation-pairs", 1)
-			if d := lgPresentation(s, alt); d != "" {
+			if d := lgPresentation(s, alt); d != "" && mayShrink("pres") {
 				small := lgShrink(s, func(t lgScript) bool { return lgPresentation(t, alt) != "" })
 				res.AddViolation(Violation{
 					Key:        "C08/logger/presentation",
@@ -574,7 +576,7 @@ func lgRunScripts(ctx *Ctx, res *Result, rng *Rng, n int, prop string, c08 bool)
 			}
 			if len(s.Opts.Only) > 0 {
 				res.Count("logger.only-pairs", 1)
-				if d := lgOnlySubset(s); d != "" {
+				if d := lgOnlySubset(s); d != "" && mayShrink("only") {
 					small := lgShrink(s, func(t lgScript) bool { return lgOnlySubset(t) != "" })
 					res.AddViolation(Violation{
 						Key:        "C08/logger/only-not-subset",
